@@ -51,7 +51,7 @@ package generic
 //@   loop 1 invariant optlog == old(optlog) ++ applied(options, box("*generic.OperationOptions", o), rangeindex + 1)
 //@   loop 1 invariant rangeindex == -1 ==> !o.StopOnFailed && len(o.FailedWhenContains) == 0
 
-//@ func (*Driver).sendCommand [C13 C01]
+//@ func (*Driver).sendCommand [C13]
 //@   at call! SendInput#1 assert [C01] #the-command-and-the-operation-options-reach-the-channel arg0 == command && arg1 === opts
 //@   at call! Record#1 assert [C01] #the-response-records-what-the-channel-returned arg0 == b
 //@   requires RI(d.Channel.Q) && d.Channel.PromptSearchDepth >= 0
@@ -64,7 +64,7 @@ package generic
 //@   ensures #failed-implies-contains result.1 == nil && result.0.Failed != nil ==> containsAnyS(result.0.Result, result.0.FailedWhenContains)
 //@   ensures #contains-implies-failed result.1 == nil && validFWC(result.0.FailedWhenContains) && containsAnyS(result.0.Result, result.0.FailedWhenContains) ==> result.0.Failed != nil
 
-//@ func (*Driver).SendCommand [C13 C01]
+//@ func (*Driver).SendCommand [C13]
 //@   at call! sendCommand#1 assert [C01] #the-command-is-sent-with-the-operation-options arg0 == command && arg1 == op && arg2 === opts
 //@   requires RI(d.Channel.Q) && d.Channel.PromptSearchDepth >= 0
 //@   modifies sent, alloc(), optlog
@@ -73,7 +73,7 @@ package generic
 //@   ensures #failed-implies-contains result.1 == nil && result.0.Failed != nil ==> containsAnyS(result.0.Result, result.0.FailedWhenContains)
 //@   ensures #contains-implies-failed result.1 == nil && validFWC(result.0.FailedWhenContains) && containsAnyS(result.0.Result, result.0.FailedWhenContains) ==> result.0.Failed != nil
 
-//@ func (*Driver).SendCommands [C13 C01]
+//@ func (*Driver).SendCommands [C13]
 //@   at call! sendCommand#1 assert [C01] #every-command-of-the-batch-is-sent-with-the-operation-options arg1 == op && arg2 === opts
 //@   at call! sendCommand#2 assert [C01] #the-last-command-too arg0 == commands[len(commands) - 1] && arg1 == op && arg2 === opts
 //@   requires RI(d.Channel.Q) && d.Channel.PromptSearchDepth >= 0
